@@ -312,10 +312,89 @@ example : isIdempotent "get" = false ∧ isIdempotent "Get" = false ∧ isIdempo
     isIdempotent " GET" = false ∧ isIdempotent "POST" = false ∧ isIdempotent "PATCH" = false := by decide
 
 /-- the table agrees with RFC 9110 §9.2.2 (safe methods GET/HEAD/OPTIONS/TRACE plus PUT and DELETE) and every public entry
-point passes a literal method with default budget 0 -/
+point has default budget 0 -/
 theorem R5_table_and_defaults :
     Gen.HttpRetry.idempotentMethods = ["GET", "HEAD", "PUT", "DELETE", "OPTIONS", "TRACE"] ∧
-    Gen.HttpRetry.entryPoints.all (fun e => e.2.2 = 0 && (isIdempotent e.2.1 || e.2.1 = "POST")) = true := by
+    Gen.HttpRetry.entryPoints.all (fun e => decide (e.2.2.2 = 0)) = true := by
+  decide
+
+/-! ### The public API (every function with an `int retries` parameter) -/
+
+/-- **P1 (entry-point table).** The public entry points, in source order, and the method each one — directly or through
+another entry point — hands to `performRequest`; no name occurs twice. For every row the translator has checked that the
+body contains exactly ONE request-issuing call, outside any try/catch and any loop, with the caller's unmodified `retries`
+as its budget (else `TranslateError`). -/
+theorem P1_entry_table :
+    (Gen.HttpRetry.entryPoints.map fun e => (e.1, entryMethod 4 e.1)) =
+      [("get", some "GET"), ("head", some "HEAD"), ("postJson", some "POST"), ("post", some "POST"),
+       ("deleteRequest", some "DELETE"), ("getAsync", some "GET"), ("postJsonAsync", some "POST"),
+       ("postStream", some "POST"), ("postFile", some "POST")] ∧
+    (Gen.HttpRetry.entryPoints.map (·.1)).Nodup := by
+  decide
+
+/-- **P2 (a public call is one `performRequest`).** Whatever a public call does, it is exactly one run of the retry loop
+with the table's method and the caller's budget. -/
+theorem P2_public_is_one_performRequest (cfg : Cfg) (c : Client) (fn : String) (rq : Request) (r : Run)
+    (h : publicCall cfg c fn rq = some r) :
+    ∃ m, entryMethod 4 fn = some m ∧ r = performRequest cfg c { rq with method := m } := by
+  unfold publicCall at h
+  cases hm : entryMethod 4 fn with
+  | none => simp [hm] at h
+  | some m => simp [hm] at h; exact ⟨m, rfl, h.symm⟩
+
+/-- **R1 for the public API.** A call of `post`, `postJson`, `postFile`, `postStream`, `postJsonAsync` — any entry point
+whose method is not in the idempotent table — with ANY budget and fault script: every attempt but the last ended in
+`HttpRequestNotSentError` without `sendSync`, and at most one attempt reached `sendSync`. -/
+theorem R1_public (cfg : Cfg) (c : Client) (fn : String) (rq : Request) (r : Run) (m : String)
+    (h : publicCall cfg c fn rq = some r) (hm : entryMethod 4 fn = some m) (hi : isIdempotent m = false) :
+    (∀ lg ∈ r.log.dropLast, lg.result = .error .notSent ∧ lg.reachedSend = false ∧ lg.receives = 0) ∧
+    r.log.countP (·.reachedSend) ≤ 1 ∧ r.log.length ≤ rq.retries.toNat + 1 := by
+  obtain ⟨m', hm', hr⟩ := P2_public_is_one_performRequest cfg c fn rq r h
+  rw [hm] at hm'
+  cases hm'
+  subst hr
+  exact ⟨R1_at_most_once cfg c { rq with method := m } hi, R1_send_count cfg c { rq with method := m } hi,
+         (R2_budget cfg c { rq with method := m }).1⟩
+
+example : entryMethod 4 "postStream" = some "POST" ∧ isIdempotent "POST" = false ∧ entryMethod 4 "put" = none := by decide
+
+/-! ### Back-off and timed waits -/
+
+/-- **no overflow in the back-off (repair FC17c).** `(1 << min(attempt, 16)) * 100 + jitter` fits a 32-bit `int` for EVERY
+attempt number, so "any retry budget" stays inside defined behaviour (the unclamped `1 << attempt` overflows at attempt 25). -/
+theorem Backoff_fits_int (attempt : Nat) : backoffHi attempt < 2 ^ 31 := by
+  have h1 : backoffExp attempt ≤ 16 := by
+    have : backoffExp attempt = min attempt 16 := by simp [backoffExp, Gen.HttpRetry.backoffShiftCap]
+    rw [this]; exact Nat.min_le_right _ _
+  have h2 : 2 ^ backoffExp attempt ≤ 2 ^ 16 := Nat.pow_le_pow_right (by decide) h1
+  simp only [backoffHi, Gen.HttpRetry.backoffBaseMs, Gen.HttpRetry.jitterHi]
+  omega
+
+example : backoffLo 0 = 100 ∧ backoffHi 3 = 899 ∧ backoffHi 40 = backoffHi 16 := by decide
+
+/-- **R6 (what each timed wait may cost).** The time-out expression of every timed wait on the request path, read from the
+source: the lease wait is `leaseAcquireTimeout`, a connect to a loopback address `min(connectTimeout, 200 ms)`, every
+receive `requestTimeout`, the residual-data probe 0 — for every configuration. -/
+theorem R6_wait_budgets (t : Timeouts) :
+    waitMs t "lease" = some t.lease ∧ waitMs t "connect" = some (min t.connect 200) ∧
+    waitMs t "receive" = some t.request ∧ waitMs t "probe" = some 0 := by
+  simp [waitMs, evalWait, Gen.HttpRetry.timedWaits, Gen.HttpRetry.localConnectCapMs, List.lookup]
+
+/-- **R4k (scheme).** A cached connection whose TLS mode differs from the request's scheme (FC07a) — or that is idle — is
+not handed out: it is closed and evicted first, and a new connection is opened in the request's mode. -/
+theorem R4_other_mode_not_reused (c : Client) (h : Host) (a : Attempt) (sid : Sid)
+    (hl : c.conns.lookup h = some sid) (hu : entryUsable c sid a = false) :
+    acquireConnection c h a =
+      ((connectNew { c with conns := eraseHost h c.conns } h a).1, (connectNew { c with conns := eraseHost h c.conns } h a).2.1,
+       .close sid :: (connectNew { c with conns := eraseHost h c.conns } h a).2.2) := by
+  simp [acquireConnection, hl, hu]
+
+/-- non-vacuity: an http request caches session 1 in plain mode; an https request to the same host:port closes it and opens
+session 2 -/
+example :
+    let c1 := (executeRequest {} {} true 0 { recvs := [.complete {}] }).1
+    c1.conns.lookup 0 = some 1 ∧ entryUsable c1 1 { https := true } = false ∧
+    (acquireConnection c1 0 { https := true }).2.2 = [.close 1, .connect 0 2] := by
   decide
 
 /-- **R6 (step bound; the wall-clock part is measured by the harness).** An attempt makes at most one `receiveSync` call per
